@@ -73,9 +73,20 @@ def o_cutoff(inp):
 def o_scale(inp):
     rel = [tuple(m) for m in inp["rel"]]
     k = inp["k"]
-    s = P.mk_rel(rel)
-    s.scale(k)
-    out = [from_real(m) for m in s._messages]
+    if inp.get("aliased"):
+        sq = P.seq_aliased(rel, inp["aliased"])         # the content is `rel` repeated; every message object occurs that often
+        rel = rel * inp["aliased"]
+        sq.scale(k, quantise_afterwards=False)
+        out = P.content_of(sq)
+    elif inp.get("default_call"):
+        # `seq.scale(k)` as a caller writes it: quantise_afterwards defaults to True
+        sq = P.seq_of_rel(rel)
+        sq.scale(k)
+        out = P.content_of(sq)
+    else:
+        s = P.mk_rel(rel)
+        s.scale(k)
+        out = [from_real(m) for m in s._messages]
     tin, din = rel_timed(rel)
     tout, dout = rel_timed(out)
     fails = []
@@ -149,9 +160,25 @@ def setup(ctx):
         return f["oracle"] == "cutoff" and f["clause"] == "cutoff-notes" and f["input"]["r"] == 0
     ctx.kf_predicates["D22"] = kf_d22
 
+    def kf_d24b(f):
+        return f["oracle"] == "scale" and bool(f["input"].get("aliased"))
+    ctx.kf_predicates["D24b"] = kf_d24b
+
+    def kf_d25(f):
+        # the default call scale(k) re-quantises and normalises afterwards
+        return f["oracle"] == "scale" and bool(f["input"].get("default_call")) and f["clause"] in ("scale-events", "scale-duration")
+    ctx.kf_predicates["D25"] = kf_d25
+
+
+D24B_EXAMPLE = {"rel": [G.pm(ON, 0, None, note=60, vel=64), G.pm(WAIT, 0, 12), G.pm(OFF, 0, None, note=60), G.pm(WAIT, 0, 12)], "k": 2, "aliased": 2}
+D25_EXAMPLE = {"rel": [G.pm(ON, 0, None, note=60, vel=64), G.pm(WAIT, 0, 30), G.pm(OFF, 0, None, note=60), G.pm(WAIT, 0, 10),
+                       G.pm(ON, 0, None, note=60, vel=64), G.pm(WAIT, 0, 5), G.pm(OFF, 0, None, note=60)], "k": 2, "default_call": True}
+
 
 def generate(ctx):
     rng = ctx.rng
+    ctx.check("scale", D24B_EXAMPLE)        # recorded instances of the known findings
+    ctx.check("scale", D25_EXAMPLE)
     for i in range(ctx.n(150, 4000)):
         rel, notes = G.gen_wf_rel(rng)
         if rng.random() < 0.5:
